@@ -22,6 +22,9 @@ func init() {
 			{ID: "C06.R3", Doc: "Merge: result = clone of the receiver; pairs Set into it come from iterating the argument", Run: c06Merge},
 			{ID: "C06.R4", Doc: "Pluck: unconditional result.Set(key, self.Get(key)) for every requested key", Run: c06Pluck},
 			{ID: "C06.R5", Doc: "Keys/Values/Contains range the receiver's spine unfiltered, once per field", Run: c06Views},
+			{ID: "C06.R12", Doc: "the typed getters of the object are Get followed by the kind test: an absent key raises Get's panic, a field of another kind the getter's own, and nothing is recovered on the way (= C12.R3 on the object's getters)", Run: func(c *Ctx) {
+				c.R.Floor("C06.R12", runAs(c, "C06.R12", c12R3, func(o *Obligation) bool { return strings.Contains(o.Construct, "(*object).Get") }), 6)
+			}},
 			{ID: "C06.R11", Doc: "scalars are held by value: parseVal maps every Go type to the constructor of its kind through value-preserving conversions (a float stays that float) and the constructors wrap their argument unchanged (= C12.R1)", Run: func(c *Ctx) { c.R.Floor("C06.R11", runAs(c, "C06.R11", c12R1, nil), 10) }},
 			{ID: "C06.R10", Doc: "Count is the number of fields (len of the receiver's spine on every path) and Empty is Count() == 0 of the same container", Run: c06Count},
 			{ID: "C06.R9", Doc: "Merge and Pluck iterate with ForEach, which visits every field exactly once (= C14 on (*object).ForEach)", Run: func(c *Ctx) {
